@@ -141,6 +141,7 @@ type State struct {
 	branch []string // branch conditions (a subset of facts)
 	now    string   // allocation clock
 	ghost  map[string]Val
+	pre    map[int]*State // snapshot taken at the head of loop N (before the first invariant check): pre(e) in its clauses
 }
 
 func (st *State) clone() *State {
@@ -170,10 +171,23 @@ func (st *State) clone() *State {
 	for k, v := range st.ghost {
 		n.ghost[k] = v
 	}
+	n.pre = make(map[int]*State, len(st.pre))
+	for k, v := range st.pre {
+		n.pre[k] = v
+	}
 	n.loops = append([]*loopCtx(nil), st.loops...)
 	n.trace = append([]string(nil), st.trace...)
 	n.branch = append([]string(nil), st.branch...)
 	return n
+}
+
+// snapshotPre keeps the state at the head of loop n for pre(...) in that loop's clauses
+func (st *State) snapshotPre(n int) {
+	c := st.clone()
+	if st.pre == nil {
+		st.pre = map[int]*State{}
+	}
+	st.pre[n] = c
 }
 
 func (st *State) assume(f string) {
@@ -359,10 +373,14 @@ func (w *World) sortOf(t types.Type) string {
 		}
 		return s
 	case *types.Map:
+		ks := w.sortOf(u.Key())
 		s := "M_" + sanitize(w.sortOf(u.Elem()))
+		if ks != "Int" {
+			s = "M_" + sanitize(ks) + "_" + sanitize(w.sortOf(u.Elem()))
+		}
 		if !w.slSorts[s] {
 			w.slSorts[s] = true
-			w.decls.declare(s, fmt.Sprintf("(declare-datatypes ((%s 0)) (((mk%s (has%s (Array Int Bool)) (get%s (Array Int %s)) (isnil%s Bool)))))", s, s, s, s, w.sortOf(u.Elem()), s))
+			w.decls.declare(s, fmt.Sprintf("(declare-datatypes ((%s 0)) (((mk%s (has%s (Array %s Bool)) (get%s (Array %s %s)) (isnil%s Bool)))))", s, s, s, ks, s, ks, w.sortOf(u.Elem()), s))
 		}
 		return s
 	}
